@@ -94,6 +94,33 @@ let contains s sub =
   let n = String.length s and m = String.length sub in
   let rec go i = i + m <= n && (String.sub s i m = sub || go (i + 1)) in go 0
 
+(* ---- attribution of a round-trip failure to a known defect of the printer / lexer: a syntactic
+        trigger evaluated on the implementation's own tree (raw dump).  First match wins. ---- *)
+let rec exists_node (p : sexp -> bool) (x : sexp) : bool =
+  p x || (match x with L l -> List.exists (exists_node p) l | _ -> false)
+let rt_cause (dump : sexp) : string option =
+  let has p = exists_node p dump in
+  let is_strnode = function L [A ("str" | "desc"); S _; A _] -> true | _ -> false in
+  if has (function L [A ("str" | "desc"); S r; A _] -> String.contains r '\000' | _ -> false) then Some "rt-nul-in-string"
+  else if has (function L [A "op"; A "query"; L [A "none"]; L []; L (_ :: _); _] -> true | _ -> false) then Some "rt-anon-query-directives"
+  else if has (function
+      | L [A "str"; S r; A b] -> not (string_stable_b (bytes_of_string r) (b = "t"))
+      | L [A "desc"; S r; A b] -> not (description_stable_b (bytes_of_string r) (b = "t"))
+      | _ -> false) then Some "rt-block-string-edge"
+  else if has (function L [A "schemadef"; _; _; _; L []] -> true | _ -> false) then Some "rt-sdl-empty-schema"
+  else if has (function L [A "schemadef"; _; L (A "desc" :: _); _; _] -> true | _ -> false) then Some "rt-sdl-schema-description-dropped"
+  else if has (function L (A "typedef" :: _ :: A "t" :: _ :: _ :: L (A "implements" :: _ :: _) :: _) -> true | _ -> false) then Some "rt-sdl-extend-implements-dropped"
+  else if (match dump with
+           | L (A "doc" :: defs) ->
+             let rec go = function
+               | [] | [_] -> false
+               | L [A "typedef"; A ("object" | "interface" | "input" | "enum"); _; _; _; _; _; L []; _; L []; L []] :: _ :: _ -> true
+               | _ :: r -> go r in
+             go defs
+           | _ -> false) then Some "rt-sdl-empty-body-dropped"
+  else if has (function L [A "desc"; S r; A "f"] -> String.contains r '\n' || String.contains r '\r' | _ -> false) then Some "rt-string-line-continuation"
+  else (ignore is_strnode; None)
+
 let show_tok (t : token) =
   Printf.sprintf "(%s %s %s %s %s %s %s)" (decimal_of_n (kind_code t.t_kind)) (decimal_of_n t.t_start) (decimal_of_n t.t_end)
     (decimal_of_n t.t_ls) (decimal_of_n t.t_cs) (decimal_of_n t.t_le) (decimal_of_n t.t_ce)
@@ -102,7 +129,7 @@ let show_verdict = function LOk -> "ok" | LDepth -> "depth" | LFields -> "fields
 
 let handle (x : sexp) : (string * string) list =
   match x with
-  | L [A "c05"; A cls; S input; A l; A f; toks; lim; L [A "parse"; A pv]; L [A "dump"; S dump1]; rtc; rti] ->
+  | L [A "c05"; A cls; S input; A l; A f; toks; lim; L [A "parse"; A pv]; L [A "dump"; S dump1]; L [A "cdump"; S cdump1]; rtc; rti] ->
     let b = bytes_of_string input in
     let lz = z_of_decimal l and fz = z_of_decimal f in
     let res = ref [] in
@@ -156,8 +183,9 @@ let handle (x : sexp) : (string * string) list =
         match rt with
         | L [A "rt"; A tag; L [A "p1"; S p1]; L [A "acc"; A acc]; L [A "dump2"; S dump2]; L [A "p2"; S p2]] ->
           if acc = "panic" || acc = "printpanic" then add "specfail" ("total: print/re-parse panicked (" ^ tag ^ ")")
-          else if not (roundtrip_ok_b (acc = "ok") (bytes_of_string dump1) (bytes_of_string dump2) (bytes_of_string p1) (bytes_of_string p2)) then
-            add "specfail" (Printf.sprintf "roundtrip/%s acc=%s dump_equal=%b print_equal=%b p1=%s p2=%s" tag acc (dump1 = dump2) (p1 = p2)
+          else if not (roundtrip_ok_b (acc = "ok") (bytes_of_string cdump1) (bytes_of_string dump2) (bytes_of_string p1) (bytes_of_string p2)) then
+            add "specfail" (Printf.sprintf "roundtrip/%s acc=%s dump_equal=%b print_equal=%b%s p1=%s p2=%s" tag acc (cdump1 = dump2) (p1 = p2)
+                              (match rt_cause (parse_sexp dump1) with Some c -> " [cause: " ^ c ^ "]" | None -> "")
                               (quote_string p1) (quote_string p2))
         | _ -> raise (Sexp_error "rt")) [rtc; rti]
     end;
